@@ -1,7 +1,7 @@
 #!/bin/sh
 # usage: seeded_one.sh <seeded-id> <property> [more properties]: runs the given checks against the seeded change in scratch /tmp/seedone
 sid=$1; shift
-S=/tmp/seedone
+S=/tmp/seedone-$sid
 git -C /repo worktree remove --force $S 2>/dev/null; rm -rf $S
 git -C /repo worktree add -q --detach $S HEAD
 git -C $S apply /verif/seeded/$sid/patch.diff || { echo "patch does not apply"; exit 2; }
